@@ -235,6 +235,8 @@ func (e *Exec) unknownCall(st *State, ci *callInfo, retTo ssa.Value) Value {
 		nt := e.freshConst("top.unk", SInt)
 		st.assert(Ge(nt, st.allocTop))
 		st.allocTop = nt
+		st.epochTop = nt
+		e.assumeGlobalInv(st)
 		e.emit(st, Event{Name: "Unknown", MayLoop: []string{"*"}, Pos: ci.pos})
 	}
 	if retTo == nil {
@@ -483,6 +485,7 @@ func (e *Exec) applyContract(st *State, fr *Frame, ci *callInfo, c *FuncContract
 		for i, fv := range ci.fn.FreeVars {
 			if i < len(ci.bind) && ci.bind[i].P != nil {
 				env.vars["&"+fv.Name()] = ci.bind[i]
+				env.vars[fv.Name()+"$ptr"] = ci.bind[i]
 			}
 		}
 	}
@@ -534,6 +537,11 @@ func (e *Exec) applyContract(st *State, fr *Frame, ci *callInfo, c *FuncContract
 	var res []Value
 	for i := 0; i < sig.Results().Len(); i++ {
 		res = append(res, e.freshValue(st, sig.Results().At(i).Type(), "ret."+shortName(c.Key)))
+	}
+	if (!c.Assumed && len(c.Assigns) > 0) || c.AssignsAll {
+		// callees preserve the global invariants (every function of the cone
+		// proves them at its return; library code cannot reach unexported state)
+		e.assumeGlobalInv(st)
 	}
 	post := &SpecEnv{e: e, st: st, vars: env.vars, pkg: pkg, old: pre, oldTop: preTop, oldNow: preNow, trace: st.trace, what: "call " + c.Key}
 	e.bindResults(post, resultNames(c, sig), sig, res)
@@ -722,6 +730,10 @@ func (e *Exec) assignTarget(env *SpecEnv, a *SExpr) (out []assignTarget, err err
 		if g, ok := e.eng.specs.Ghosts[name]; ok && !g.IsField {
 			v := env.eval(a.Args[1])
 			return []assignTarget{{key: "ghost:" + name, sort: sortOfSpecType(env.specType(g.Result)), obj: refLeaf(v)}}, nil
+		}
+		if name == "atomicbool" {
+			v := env.eval(a.Args[1])
+			return []assignTarget{{key: "ghost:atomicBool", sort: SBool, obj: refLeaf(v)}}, nil
 		}
 	case "sel":
 		// Type.field : every object
